@@ -277,10 +277,12 @@ class expr_subscript(expr):
 class rng(object):
     
     def __init__(self, low, high):
-        to_expr(low)
-        self.low = pop_expr()
+        # Operands that are expressions already sit on the expression
+        # stack in the order they were written: take the last one first
         to_expr(high)
         self.high = pop_expr()
+        to_expr(low)
+        self.low = pop_expr()
         
 class rangelist(object):
     
@@ -295,10 +297,11 @@ class rangelist(object):
                 # This needs to be a two-element array
                 if len(a) != 2:
                     raise Exception("Range specified with " + str(len(a)) + " elements is invalid. Two elements required")
-                to_expr(a[0])
-                e0 = pop_expr()
+                # (see rng: the last-written operand is on top of the stack)
                 to_expr(a[1])
                 e1 = pop_expr()
+                to_expr(a[0])
+                e0 = pop_expr()
                 self.range_l.add_range(ExprRangeModel(e0, e1))
             elif isinstance(a, rng):
                 self.range_l.add_range(ExprRangeModel(a.low, a.high))
@@ -327,10 +330,11 @@ class rangelist(object):
             # This needs to be a two-element array
             if len(a) != 2:
                 raise Exception("Range specified with " + str(len(a)) + " elements is invalid. Two elements required")
-            to_expr(a[0])
-            e0 = pop_expr()
+            # (see rng: the last-written operand is on top of the stack)
             to_expr(a[1])
             e1 = pop_expr()
+            to_expr(a[0])
+            e0 = pop_expr()
             self.range_l.add_range(ExprRangeModel(e0, e1))
         elif isinstance(a, rng):
             self.range_l.add_range(ExprRangeModel(a.low, a.high))
